@@ -4,7 +4,7 @@ import math
 
 from rv import bridge, cli, gen, solvercheck as SC, suite
 from rv.bridge import ALL, ANY
-from rv.core import Inconclusive
+from rv.core import Inconclusive, skippable
 from rv.props import _super as SU
 from rv.refmodel import dtl, label, trees as RT
 from rv.refmodel.trees import T
@@ -35,10 +35,10 @@ META = {
 
 def plan(tier, seed):
     q = tier == "quick"
-    n = 12 if q else 32
-    specs = [{"kind": "rand", "i": i, "count": 70 if q else 600} for i in range(n)]
-    specs += [{"kind": "poly", "i": i, "count": 6 if q else 40} for i in range(4 if q else 8)]
-    specs += [{"kind": "deep", "i": i, "count": 90 if q else 1200} for i in range(8 if q else 16)]
+    n = 16 if q else 32
+    specs = [{"kind": "rand", "i": i, "count": 110 if q else 600} for i in range(n)]
+    specs += [{"kind": "poly", "i": i, "count": 10 if q else 40} for i in range(8)]
+    specs += [{"kind": "deep", "i": i, "count": 120 if q else 1200} for i in range(16)]
     specs += [{"kind": "cli", "i": i} for i in range(7 if q else 28)]
     specs.append({"kind": "corpus", "big": not q})
     return specs
@@ -111,6 +111,7 @@ def judge_solution(e, kind, c, root_order=None):
     return None
 
 
+@skippable
 def check_case(ctx, case):
     B = bridge.Built(case, named=case.get("named", True))
     c = B.c
